@@ -2,9 +2,9 @@
    This file contains nothing but the property theorems, each closed by [exact] of a lemma from
    Proofs/, with Print Assumptions beneath.  Model: Model/C10_RayTransfer.v. *)
 Require Import Cherab.Common.Qx.
-Require Import Cherab.Model.C10_RayTransfer Cherab.Model.C10_Pipeline.
+Require Import Cherab.Model.C10_RayTransfer Cherab.Model.C10_Pipeline Cherab.Model.C10_Emitter.
 Require Import Cherab.Proofs.C10_Loop Cherab.Proofs.C10_Count Cherab.Proofs.C10_Chord Cherab.Proofs.C10_Cart
-               Cherab.Proofs.C10_Maps Cherab.Proofs.C10_Pipeline.
+               Cherab.Proofs.C10_Maps Cherab.Proofs.C10_Pipeline Cherab.Proofs.C10_Cyl Cherab.Proofs.C10_Emitter Cherab.Proofs.C10_Fast.
 From Coq Require Import Qabs.
 Open Scope Q_scope.
 
@@ -161,6 +161,122 @@ Theorem C10_pipelineNd_history_independent :
   forall st st' h, pn_history st h = pn_history st' h.
 Proof. exact pn_history_independent. Qed.
 Print Assumptions C10_pipelineNd_history_independent.
+
+(* ---- the whole call of the model (integrate = too-short test + sampling + loop) ---- *)
+(* a path shorter than 0.1 * step leaves the spectrum as it is *)
+Theorem C10_too_short_path_changes_nothing :
+  forall cellfn vm start stop len stp ms s0,
+  too_short len stp = true -> integrate cellfn vm start stop len stp ms s0 = s0.
+Proof. exact integrate_short. Qed.
+Print Assumptions C10_too_short_path_changes_nothing.
+
+(* otherwise entry j of the returned spectrum is the entry passed in (+=) plus dt times the number of the call's own
+   sample points whose cell is mapped to j *)
+Theorem C10_integrate_entry_is_dt_times_samples :
+  forall cellfn vm start stop len stp ms s0 j,
+  too_short len stp = false -> (-1 < j)%Z ->
+  (forall c, In c (integrate_cells cellfn start stop len stp ms) -> c <> cinit) ->
+  integrate cellfn vm start stop len stp ms s0 j ==
+  s0 j + dt_of len (nsamples ms len stp)
+         * inject_Z (countp (fun c => (vm c =? j)%Z) (integrate_cells cellfn start stop len stp ms)).
+Proof. exact integrate_entry. Qed.
+Print Assumptions C10_integrate_entry_is_dt_times_samples.
+
+(* and when every sampled cell has a source the bins grow by exactly len, the length of the path: "the entries sum to the
+   length of the chord", for the model's integrate itself, any grid, any min_samples >= 1 *)
+Theorem C10_integrate_all_active_sums_to_length :
+  forall cellfn vm start stop len stp ms s0 (B : nat),
+  too_short len stp = false -> (1 <= ms)%Z ->
+  (forall c, In c (integrate_cells cellfn start stop len stp ms) -> c <> cinit) ->
+  (forall c, In c (integrate_cells cellfn start stop len stp ms) -> (-1 < vm c < Z.of_nat B)%Z) ->
+  sum_bins (integrate cellfn vm start stop len stp ms s0) B == sum_bins s0 B + len.
+Proof. exact integrate_total. Qed.
+Print Assumptions C10_integrate_all_active_sums_to_length.
+
+(* ---- cylindrical cells: narrowing the gap of C10_cell_error_k_intervals_partial ---- *)
+(* the ring index computed without a square root is the ring: (rmin + r dr)^2 <= s < (rmin + (r+1) dr)^2 *)
+Theorem C10_ring_index_spec :
+  forall rmin dr s, 0 <= rmin -> 0 < dr -> forall fuel i, (0 <= i)%Z ->
+  rb rmin dr i * rb rmin dr i <= s ->
+  s < rb rmin dr (i + Z.of_nat fuel) * rb rmin dr (i + Z.of_nat fuel) ->
+  let r := ir_up fuel i s rmin dr in
+  (i <= r)%Z /\ rb rmin dr r * rb rmin dr r <= s /\ s < rb rmin dr (r + 1) * rb rmin dr (r + 1).
+Proof. exact ir_up_spec. Qed.
+Print Assumptions C10_ring_index_spec.
+
+(* the geometric fact that was a bare hypothesis: along a straight line, a region  ring x slab x (any convex angular
+   condition)  is never entered three times (no in-out-in-out-in): it is met in at most two intervals *)
+Theorem C10_cyl_region_met_in_at_most_two_intervals :
+  forall x0 dx y0 dy z0 dz rlo rhi zlo zhi (sector : Q -> Prop), convex sector ->
+  let S := in_cyl_region x0 dx y0 dy z0 dz rlo rhi zlo zhi sector in
+  forall t1 t2 t3 t4 t5, t1 < t2 -> t2 < t3 -> t3 < t4 -> t4 < t5 ->
+  S t1 -> ~ S t2 -> S t3 -> ~ S t4 -> S t5 -> False.
+Proof. exact cyl_region_two_runs. Qed.
+Print Assumptions C10_cyl_region_met_in_at_most_two_intervals.
+
+(* ... and for an axisymmetric grid this is a statement about the MODEL's cyl_cell itself.
+   What remains PARTIAL for cylindrical cells: (1) that the sector test of the model (iphi_sector, boundaries with sqrt 3)
+   is a convex condition on the parameter (true for every half-plane; proved here only for rational directions, band_convex);
+   (2) the end points of the at most two intervals are square roots, so the "exact chord length" of a ring cell is not a
+   rational: the bound |entry - chord| <= 2 dt is the k = 2 instance of C10_cell_error_k_intervals_partial for any rational
+   intervals that bracket them. *)
+Theorem C10_axisymmetric_cell_met_in_at_most_two_intervals :
+  forall (g : cylgrid) x0 dx y0 dy z0 dz i j,
+  cg_nphi g = 1%Z -> 0 <= cg_rmin g -> 0 < cg_dr g -> 0 < cg_dz g -> (0 <= cg_nr g)%Z -> (0 <= i)%Z ->
+  let inside t := 0 <= z0 + dz * t /\ cg_rmin g * cg_rmin g <= rho2 x0 dx y0 dy t /\
+                  rho2 x0 dx y0 dy t < rb (cg_rmin g) (cg_dr g) (cg_nr g + 2) * rb (cg_rmin g) (cg_dr g) (cg_nr g + 2) in
+  let S t := cyl_cell g (x0 + dx * t, y0 + dy * t, z0 + dz * t) = (i, 0%Z, j) in
+  forall t1 t2 t3 t4 t5, t1 < t2 -> t2 < t3 -> t3 < t4 -> t4 < t5 ->
+  inside t1 -> inside t2 -> inside t3 -> inside t4 -> inside t5 ->
+  S t1 -> ~ S t2 -> S t3 -> ~ S t4 -> S t5 -> False.
+Proof. exact axisym_cell_two_runs. Qed.
+Print Assumptions C10_axisymmetric_cell_met_in_at_most_two_intervals.
+
+(* ---- the mask / voxel_map state machine of the emitters ---- *)
+Theorem C10_rejected_assignment_changes_nothing :
+  forall sh st op, snd (em_step sh st op) = ErrValue -> fst (em_step sh st op) = st.
+Proof. exact em_step_rejected. Qed.
+Print Assumptions C10_rejected_assignment_changes_nothing.
+
+Theorem C10_accepted_assignment_forgets_the_past :
+  forall sh st st' op, snd (em_step sh st op) = ErrNone -> em_step sh st op = em_step sh st' op.
+Proof. exact em_step_accepted_independent. Qed.
+Print Assumptions C10_accepted_assignment_forgets_the_past.
+
+(* after obj.mask = m the object reports m (so the one-source-per-cell map was rebuilt), whatever map it carried *)
+Theorem C10_mask_assignment_roundtrip :
+  forall sh st s m, shape_eqb s sh = true -> em_mask (fst (em_step sh st (OpMask (Some (s, m))))) = m.
+Proof. exact mask_roundtrip. Qed.
+Print Assumptions C10_mask_assignment_roundtrip.
+
+(* ---- the fast evaluator used in the correspondence equals the literal model ---- *)
+(* the C cast depends on the value only *)
+Theorem C10_ctrunc_respects_Qeq : forall q q', q == q' -> ctrunc q = ctrunc q'.
+Proof. exact ctrunc_comp. Qed.
+Print Assumptions C10_ctrunc_respects_Qeq.
+
+(* the points the executable model evaluates (reduced fractions, no length) fall into the same Cartesian cells as the
+   literal formula of the code *)
+Theorem C10_executable_samples_give_the_code_cells :
+  forall steps start d len (n : Z), ~ len == 0 -> (0 < n)%Z ->
+  map (cart_cell steps) (sample_points_lam start d n) =
+  map (cart_cell steps) (sample_points start (vscale (/ len) d) (dt_of len n) n).
+Proof. exact cart_cells_fast_eq. Qed.
+Print Assumptions C10_executable_samples_give_the_code_cells.
+
+(* so the one-step bound holds for exactly the cell list that integrate (the function run against the implementation)
+   feeds into the loop: any grid, end points, length, step, min_samples >= 1, any cell *)
+Theorem C10_integrate_cartesian_cell_error_at_most_one_step :
+  forall dx dy dz s1 s2 s3 e1 e2 e3 len stp ms (c : cell),
+  0 < dx -> 0 < dy -> 0 < dz -> 0 < len -> (1 <= ms)%Z ->
+  let n := nsamples ms len stp in
+  let d1 := / len * (e1 - s1) in let d2 := / len * (e2 - s2) in let d3 := / len * (e3 - s3) in
+  (forall t, 0 <= t -> t <= len -> 0 <= s1 + d1 * t /\ 0 <= s2 + d2 * t /\ 0 <= s3 + d3 * t) ->
+  Qabs (dt_of len n * inject_Z (countp (cell_eqb c)
+                                  (integrate_cells (cart_cell (dx, dy, dz)) (s1, s2, s3) (e1, e2, e3) len stp ms))
+        - chord_cart (dx, dy, dz) (s1, s2, s3) (d1, d2, d3) len c) <= dt_of len n.
+Proof. exact integrate_cells_cart_error. Qed.
+Print Assumptions C10_integrate_cartesian_cell_error_at_most_one_step.
 
 (* non-vacuity: the hypotheses of the Cartesian theorem and of the k-interval theorem are satisfiable *)
 Example C10_nonvacuous :
